@@ -279,7 +279,18 @@ def run(repo, rep):
     rep.rule('C07.D6', 'file reception: callback gets the accepted context of the PDV\'s context id; stream rewound to the '
              'returned position; early fragments flushed in order; meta header written with the negotiated syntax', 3)
 
-    loop, item = process_loop(proc)
+    rep.rule('C07.D8', 'every PDV of a P-DATA-TF is visited once and in order: the sequence the loop iterates is not changed '
+             'inside the loop', 1)
+    from ..pitfalls import mutated_while_iterated
+    p8 = [x for hf in repo.helper_closure(proc) for x in mutated_while_iterated(hf)]
+    rep.check(not p8, 'C07.D8', 'fsm:DIMSEDecoder.process:visits-every-pdv', proc.loc(), 'the PDV list is not mutated while iterated',
+              '; '.join(p8))
+    try:
+        loop, item = process_loop(proc)
+    except AnalysisError:
+        if p8:
+            return     # already reported; the mutated loop need not be interpretable
+        raise
 
     # ---------------------------------------------------------------- D3
     tracked = {'self.command_set_received', 'self.data_set_received', 'self.receiving', 'marker',
